@@ -514,8 +514,8 @@ EXPECTED_PROBES = {
     "C13": ["fastforward-ok", "re-fast-forward", "c13-ff-history-checked"],
     "C14": ["ff-attempt:forged-validator-set", "ff-forged-set-offered-again"],
     "C15": ["c15-wire-roundtrip", "c15-block-json", "c15-frame-json", "c15-db-events-reloaded", "c15-frame-handover"],
-    "C16": ["c16-ops-applied", "c16-reopens", "c16-restart-after-kill"],
-    "C17": ["c17-runtime-suspend", "auto-suspended", "c17-suspended-sync-checked", "c17-leave-then-restart"],
+    "C16": ["c16-ops-applied", "c16-reopens", "c16-restart-after-kill", "c16-reset-checked"],
+    "C17": ["c17-runtime-suspend", "auto-suspended", "c17-suspended-sync-checked", "c17-leave-then-restart", "c17-maintenance-session-opened", "c17-maintenance-session-closed"],
     "C18": ["c18-block-checked", "c18-liar-among-famous-witnesses"],
     "C20": ["c20-commit-checked", "c20-submit-checked", "c20-call-failed-with-error", "c20-block-delivered-more-than-once"],
 }
